@@ -374,3 +374,51 @@ def h_positions(ctx, cfg):
             ctx.prove("schema_valid[%s]" % name, z3.BoolVal(not errs), detail=errs[0].message[:200] if errs else None)
     # defaults are omitted
     ctx.prove("defaults_omitted", z3.BoolVal(J.value_to_json(Name("n")) == {"name": "n"} and J.value_to_json(Instruction("X")) == {"name": "X"}))
+
+
+@harness("json.defaults_and_field_order", props=["C07", "C15", "C08"], functions=["code_data._json_data.value_to_json", "code_data.dataclass_hide_default.field_is_default", "code_data (data classes)"],
+         configs="any", engine="E2",
+         notes="bounded (every data class): an instance built from required fields only serializes to exactly its required keys and loads back to itself; every optional field set to a "
+               "non-default value appears under its own name; the fields of each class, their order and their defaults are the ones the JSON contract was written against")
+def h_defaults(ctx, cfg):
+    import dataclasses
+    import json
+    from pcv import rewrite as rw
+    rw.Source.of(J).get_def("value_to_json")
+    body = (Instruction("RETURN_VALUE"),)
+    minimal = {
+        "Jump": (Jump(0), {"target": 0}), "Name": (Name("n"), {"name": "n"}), "Varname": (Varname("v"), {"varname": "v"}), "Cellvar": (Cellvar("c"), {"cellvar": "c"}),
+        "Freevar": (Freevar("f"), {"freevar": "f"}), "NoArg": (NoArg(), {}), "Constant": (Constant(None), {"constant": None}), "Constant(False)": (Constant(False), {"constant": False}),
+        "Constant(0)": (Constant(0), {"constant": 0}), "Constant('')": (Constant(""), {"constant": ""}), "Constant(())": (Constant(()), {"constant": []}),
+        "Instruction": (Instruction("X"), {"name": "X"}), "AdditionalLine": (AdditionalLine(None), {"line": None}), "AdditionalLine(0)": (AdditionalLine(0), {"line": 0}),
+        "Args": (Args(), {}), "Function": (Function(), {}),
+        "CodeData": (CodeData(blocks=(body,), filename="f", first_line_number=0, name="", stacksize=0), {"blocks": [[{"name": "RETURN_VALUE"}]], "filename": "f", "first_line_number": 0, "name": "", "stacksize": 0}),
+    }
+    for name, (v, want) in minimal.items():
+        got = J.value_to_json(v)
+        ctx.prove("defaults_omitted_required_kept[%s]" % name, z3.BoolVal(json.dumps(got, sort_keys=True) == json.dumps(want, sort_keys=True) and _same_types(got, want)), detail="%r -> %r" % (v, got))
+    # falsy but non-default values must NOT be dropped
+    falsy = {"Jump.relative": (Jump(0, True), "relative"), "Name._index_override=0": (Name("n", 0), "_index_override"), "Instruction.line_number=0": (Instruction("X", NoArg(), None, 0), "line_number"),
+             "Instruction.arg=0": (Instruction("X", 0), "arg"), "NoArg._arg": (NoArg(5), "_arg"), "Function.docstring=''": (Function(Args(), ""), "docstring"),
+             "CodeData.future_annotations": (CodeData(blocks=(body,), filename="f", first_line_number=1, name="n", stacksize=1, future_annotations=True), "future_annotations"),
+             "CodeData.type=Function()": (CodeData(blocks=(body,), filename="f", first_line_number=1, name="n", stacksize=1, type=Function()), "type")}
+    for name, (v, key) in falsy.items():
+        got = J.value_to_json(v)
+        ctx.prove("non_default_field_is_written[%s]" % name, z3.BoolVal(key in got), detail=repr(got))
+    want_fields = {
+        "CodeData": ["blocks", "filename", "first_line_number", "name", "stacksize", "type", "freevars", "future_annotations", "_nested", "_additional_line", "_additional_args"],
+        "Instruction": ["name", "arg", "_n_args_override", "line_number", "_line_offsets_override"], "Jump": ["target", "relative"], "Name": ["name", "_index_override"],
+        "Varname": ["varname", "_index_override"], "Constant": ["constant", "_index_override"], "Freevar": ["freevar"], "Cellvar": ["cellvar", "_index_override"], "NoArg": ["_arg"],
+        "Args": ["positional_only", "positional_or_keyword", "var_positional", "keyword_only", "var_keyword"], "Function": ["args", "docstring", "type"], "AdditionalLine": ["line", "additional_offsets"]}
+    for cls in (CodeData, Instruction, Jump, Name, Varname, Constant, Freevar, Cellvar, NoArg, Args, Function, AdditionalLine):
+        ctx.prove("fields_and_order[%s]" % cls.__name__, z3.BoolVal([f.name for f in dataclasses.fields(cls)] == want_fields[cls.__name__]), detail=repr([f.name for f in dataclasses.fields(cls)]))
+
+
+def _same_types(a, b):
+    if type(a) is not type(b):
+        return False
+    if isinstance(a, dict):
+        return all(_same_types(a[k], b[k]) for k in a)
+    if isinstance(a, list):
+        return all(_same_types(x, y) for x, y in zip(a, b))
+    return True
